@@ -15,11 +15,11 @@
    a ListNode, soydoc params are SoyDocParamNodes, a {let} is a direct child of
    a ListNode); the harness evaluates them on every parsed bundle. *)
 (* source tie by translation: the lemmas of these files are obligations of this property *)
-From Soy Require Import Proofs.SourceTieChecker Proofs.SourceTieChildren.
+From Soy Require Import Proofs.SourceTieChecker Proofs.SourceTieChildren Proofs.CheckerDispatchTie.
 From Soy Require Import Model.Bytes Model.Num Model.Values Model.Outcome Model.Ast Model.Interp Model.RefView Model.Checker
   Spec.Wf Proofs.CheckerProofs Proofs.CheckerInterpProofs.
 From Coq Require Import Permutation.
-From Soy Require Import Model.Compile Proofs.CheckerCompileTie Proofs.CheckerAddTie.
+From Soy Require Import Model.MsgId Model.Compile Proofs.CheckerCompileTie Proofs.CheckerAddTie.
 From Soy Require Import Model.CheckerRun Proofs.CheckerExcuseProofs Proofs.CheckerExcuseRel.
 Open Scope N_scope.
 
@@ -98,6 +98,27 @@ Theorem C07_children_match_source : forall ko0 n,
   end.
 Proof. exact children_matches_source. Qed.
 Print Assumptions C07_children_match_source.
+
+(* The dispatch of the checker -- which node types checkTemplate's type switch has a clause for, which checker
+   operations (checkLet, recurse, the pushes and the pop of tc.vars, checkTemplate on a field, checkCall, visitKey,
+   checkLoopFunc, the panic) a clause performs on which fields of the node, in which order, whether it returns
+   early, and that every other node is only recursed into -- is read from parsepasses/datarefcheck.go on every run:
+   tablegen (81-check-dispatch; helper methods of templateChecker are inlined) translates the switch into step lists
+   (Generated.Tables.src_check_dispatch / src_check_default), [cd_run] interprets a step list with the model's own
+   operations and [w] as the recursive call, and one level of the model's checkTemplate (Compile.check_body, to
+   which Model/Checker.v is tied by C07_checker_models_agree) is the run of the steps of the clause of the node's
+   Go type, for every node, state and [w].  The bodies of the operations themselves stay modelled (compared with
+   the compiler on every run). *)
+Theorem C07_dispatch_matches_source : forall ko lookup params w st n,
+  cd_run ko lookup params w n (cd_steps_of n) st = Some (check_body ko lookup params w st n).
+Proof. exact check_body_matches_source. Qed.
+Print Assumptions C07_dispatch_matches_source.
+
+(* no clause of the source is skipped: every type a clause names is one [cd_type] can return *)
+Theorem C07_dispatch_types_known :
+  forallb (fun c => forallb (fun t => mem_s t cd_known_types) (fst c)) Generated.Tables.src_check_dispatch = true.
+Proof. exact cd_types_known. Qed.
+Print Assumptions C07_dispatch_types_known.
 
 (* ------------------------------------------------------------------ *)
 (* 2. static scoping is sound for the scope stack *)
